@@ -10,7 +10,7 @@ CHECKS = {
          "DESIGN.md 3 C01"),
  "C02": ("exhaustive enumeration of process programs with value-carrying timeouts, succeed/fail, joins, plain callbacks, catching/non-catching waits; registration-order ledger and crash prediction",
          "Every program of up to D instructions over the value/failure alphabet is executed; per event the invocation sequence must equal the registration list exactly once each in one kernel step, every waiter receives the event's own tag or an exception of the same type and args, already-processed events resume in the same step, re-triggers raise RuntimeError, and run() raises exactly the failures no process was waiting for, at that instant.",
-         "bounds: D<=6/7 with 2 initial processes (two alphabets), D<=5/6 with 3; <=4 processes",
+         "bounds: D<=6/7 with 2 initial processes (two alphabets), D<=5/6 with 3 and with failures re-raised `from` as another exception; <=4 processes",
          "DESIGN.md 3 C02"),
  "C03": ("exhaustive enumeration of (program, split plan) pairs on the real kernel and of split plans over fixed network scenarios; trace equality with the uninterrupted run; cross-process digest comparison for hash seeds",
          "For every kernel program of up to Dp instructions and 5 network scenarios the uninterrupted run is executed first; then every plan of up to S stops (step(), run(until=t) on and between due instants, a refused t<=now, run(until=event) for each event/process that succeeds) is executed on a fresh kernel with the same program and the concatenated trace, the state at each return (now, processed, nothing later observed) and the returned values are compared. Trace digests of all small programs and scenarios are compared across 13 fresh interpreter processes with different PYTHONHASHSEED values.",
@@ -22,12 +22,12 @@ CHECKS = {
          "DESIGN.md 3 C04"),
  "C05": ("exhaustive enumeration of condition trees x leaf kinds x timings x construction order on the real kernel; recursive reference over the observed leaf processing order",
          "Every condition tree of the stated shape (AllOf/AnyOf 0-3 operands, &, |, nested) over timeouts, helper-triggered events and child processes that succeed or fail at instants 0/1/2, built at 0 or 1 before/after the helpers, with/without catcher, is executed; the root's waiter must resume exactly at the reference instant with exactly the processed leaves in operand order (or the failing operand's exception), and run() must raise exactly the failures the statement leaves unhandled.",
-         "bounds: depth<=2/3, <=3/4 leaves; crash expectation three-valued (see evidence assumptions)",
+         "bounds: depth<=2/3, <=3/4 leaves; binary roots also with exception objects as success values; crash expectation three-valued (see evidence assumptions)",
          "DESIGN.md 3 C05"),
  # id: (technique, level text, level note, design ref)
  "C12": ("exhaustive enumeration of arrival workloads against the real schedulers; work-conserving single-server reference + ledger",
          "Every workload of up to N packets (gaps incl. same-step/same-instant/coinciding with transmission ends) over 6 schedulers x tables x rates x flow-to-class maps is executed on the real code; departure instants, per-flow order, counters after every kernel step and Monitor samples are compared with an exact reference. Complete within the stated bounds, nothing sampled.",
-         "bounds: N<=3/4 packets full menu, N<=4/5 reduced; dyadic rates/sizes so float arithmetic is exact; reference model in harness/sched.py is trusted",
+         "bounds: N<=3/4 packets full menu, N<=4/5 reduced; packet ids rising and (reduced) falling within a flow; dyadic rates/sizes so float arithmetic is exact; reference model in harness/sched.py is trusted",
          "DESIGN.md 3 C12"),
  "C06": ("exhaustive enumeration of operation histories (puppet processes driven through mailboxes, batches inside one instant) and of customer-script populations on the real Resource classes; reference = set of admissible states with lazy hand-over forks",
          "Every legal history of up to D request/release/double-release/foreign-release/cancel/with-exit/tick/flush operations on 3 puppets, and every population of 3-4 customer scripts written with `with res.request() as r: yield r | timeout` (incl. preemption reactions and an outside interrupt leaving the with-block through the exception), is executed on Resource, PriorityResource and PreemptiveResource with capacity 1-3; capacity is checked after every kernel step, no-idle-slot at every clock advance, and users/queue/grant sequence/preemptions must equal some admissible reference state.",
@@ -67,7 +67,7 @@ CHECKS = {
          "DESIGN.md 3 C15"),
  "C16": ("exhaustive enumeration of segment arrival sequences at the real TCPSink, and of fault sets (drop / late delivery by transmission index, deviation-bounded) over a real TCPPacketGenerator+TCPSink pair on a harness path",
          "Every arrival sequence of up to L segments over {0..3}*MSS is fed to the real TCPSink and each returned ACK compared with the contiguous-prefix length. End to end, for every flow size, path delay pair, initial RTT estimate (incl. RTO < RTT) and Reno/CUBIC, every set of up to F faults among the first K data and ACK transmissions is executed to a 4000 s horizon: the run must not raise, the sink must hold [0,size) and last_ack must reach size; loss-free runs whose RTT stays below every RTO in force must transmit each segment once.",
-         "bounds: L<=6/7; flows 1..6/8 MSS; delays (1,1),(1,3),(3,5); estimates .25/.5/4; F<=3/4 faults among the first 12/20 transmissions of each direction; FIFO paths",
+         "bounds: L<=6/7; flows 1..6/8 MSS; delays (1,1),(1,3),(3,5); estimates .25/.5/4; F<=3/4 faults among the first 12/20 transmissions of each direction; FIFO paths; fixed long executions: 7 arrival orders (<=100 holes), 48 periodic fault patterns, 6 outages of 11/12 consecutive losses",
          "DESIGN.md 3 C16"),
  "C17": ("exhaustive enumeration of ACK/timer histories at the real TCP sender (the harness plays the network); reference = the statement's window and RTO rules",
          "Every history of up to D events (new ACK advancing 1-3 segments with RTT sample .5/1/3, duplicate ACK, clock +0.5, next timer expiry) from 4 Reno start states and 3 CUBIC/fast-recovery start states is executed on the real sender with the kernel run to quiescence after each event; cwnd, ssthresh, rto, last_ack, next_seq (and CUBIC's pacing figures) must equal the reference after every event, every new segment must be MSS-sized, consecutive and inside the window, retransmissions must be exactly those the rules call for.",
@@ -75,7 +75,7 @@ CHECKS = {
          "DESIGN.md 3 C17"),
  "C18": ("complete enumeration of small configuration grids against the real demuxes/switches/hub/splitters; exhaustive enumeration of every flow the owned sample() can generate on FatTree(2), FatTree(4), with FIB walk and end-to-end simulation",
          "All FlowDemux/FIBDemux tables, output lists, end maps and flows of the stated grids, all hub populations/construction styles/senders and all splitter connection patterns are executed; FatTree structure is checked for k<=8/12; every (src,dst,shortest path) choice for k=2 and k=4 (848) with and without tcp has its generated FIB walked hop by hop and is simulated with bare FIBDemux+Port nodes and with FairPacketSwitch(WFQ) nodes whose flows share one class; flow pairs sharing a directed link are simulated.",
-         "bounds: grids as listed in the evidence rule; k=4 pairs: first flow among the first 16 (quick) / all 240 endpoint choices (thorough); networkx trusted for graph bookkeeping",
+         "bounds: grids as listed in the evidence rule; k=4 pairs: first flow among the first 16 (quick) / all 240 endpoint choices (thorough); k=6 single flows: first 10 sources (quick) / all 2862 pairs and one source of k=8 (thorough); networkx trusted for graph bookkeeping",
          "DESIGN.md 3 C18"),
  "C19": ("exhaustive enumeration, deviation-bounded, of stop/restart histories issued before/after the timer's own event at every instant and from its own callback, on the real Timer; reference = set of (pending expiry, stopped, period) states",
          "For one-shot and auto-restart timers with timeout 2|3 and args None/[7]/7/'ab', every history with up to B stop()/restart(1|2) actions placed before or after the timer's event at any instant 1..H, or inside any callback invocation, is executed; every firing must be expected by some reference state, every expected firing must have happened when the clock advances, arguments must arrive as given, and nothing may raise.",
